@@ -29,6 +29,7 @@ def body(tier: str, seed: int) -> int:
     pool = bitc.composable(cs)
     for k in (2, 3, 4):
         seqs += stl.random_compositions(pool, k, 60 if thorough else 12, seed * 7919 + k)
+    bitc.one_width_each(seqs)
     allc = cs + seqs
     bitc.order_widths(allc)
     bitc.pin_domains(allc, tier, seed)
